@@ -201,11 +201,12 @@ type GuardViolation struct {
 
 // GuardResult is the outcome for one row.
 type GuardResult struct {
-	Accesses   int
-	Violations []GuardViolation
-	CallSites  int
-	Unresolved []string
-	Inferred   []string // helpers treated as lock-held because every call site holds the lock
+	Accesses    int
+	Violations  []GuardViolation
+	CallSites   int
+	Unresolved  []string
+	Inferred    []string // helpers treated as lock-held because every call site holds the lock
+	GoneHelpers []string // listed lock-held helpers that no longer exist by that name
 }
 
 func fnKey(fn *ssa.Function) string {
@@ -229,11 +230,33 @@ func fnKey(fn *ssa.Function) string {
 // then hold the lock — "a wrapper acquires nothing, its callers do". The
 // inference is repeated so that helpers of helpers are covered.
 func (p *Prog) CheckGuard(row GuardRow) GuardResult {
+	// the mutex itself may have been renamed: the rule is "the fields are consistently guarded by
+	// one mutex of the struct", so any mutex field under which every access is made will do
+	if p.FieldExact(row.Pkg, row.Type, row.Mutex) == nil {
+		best, bestN := "", -1
+		for _, m := range p.MutexFields(row.Pkg, row.Type) {
+			r2 := row
+			r2.Mutex = m
+			res := p.checkGuardInfer(r2)
+			if len(res.Unresolved) == 0 && (bestN < 0 || len(res.Violations) < bestN) {
+				best, bestN = m, len(res.Violations)
+			}
+		}
+		if best != "" {
+			p.Renamed = append(p.Renamed, row.Type+"."+row.Mutex+" -> "+row.Type+"."+best+" (the mutex under which the guarded fields are accessed)")
+			row.Mutex = best
+		}
+	}
+	return p.checkGuardInfer(row)
+}
+
+func (p *Prog) checkGuardInfer(row GuardRow) GuardResult {
 	res := p.checkGuardOnce(row)
 	inferred := map[string]string{}
 	for iter := 0; iter < 4; iter++ {
 		type cand struct {
 			idx   int
+			mid   string
 			write bool
 		}
 		cands := map[*ssa.Function]*cand{}
@@ -242,13 +265,15 @@ func (p *Prog) CheckGuard(row GuardRow) GuardResult {
 				continue
 			}
 			for i, prm := range v.Fn.Params {
-				if v.Need == prm.Name()+"."+row.Mutex {
+				// the guarded object is reached from a parameter: "p.mutex" or "p.a.b.mutex"
+				if strings.HasPrefix(v.Need, prm.Name()+".") && strings.HasSuffix(v.Need, "."+row.Mutex) {
+					mid := strings.TrimSuffix(strings.TrimPrefix(v.Need, prm.Name()), "."+row.Mutex) // "" or ".a.b"
 					c := cands[v.Fn]
 					if c == nil {
-						c = &cand{idx: i}
+						c = &cand{idx: i, mid: mid}
 						cands[v.Fn] = c
 					}
-					if c.idx != i {
+					if c.idx != i || c.mid != mid {
 						c.idx = -1
 					}
 					c.write = c.write || v.Write
@@ -280,7 +305,7 @@ func (p *Prog) CheckGuard(row GuardRow) GuardResult {
 			if _, had := row.Held[key]; had {
 				continue
 			}
-			tmpl := "$" + string(rune('0'+c.idx))
+			tmpl := "$" + string(rune('0'+c.idx)) + c.mid
 			if !c.write {
 				tmpl = "R:" + tmpl
 			}
@@ -312,15 +337,14 @@ func (p *Prog) CheckGuard(row GuardRow) GuardResult {
 func (p *Prog) checkGuardOnce(row GuardRow) GuardResult {
 	var res GuardResult
 	fields := map[*types.Var]bool{}
-	for _, fname := range row.Fields {
-		f := p.Field(row.Pkg, row.Type, fname)
-		if f == nil {
-			res.Unresolved = append(res.Unresolved, row.Type+"."+fname)
-			continue
-		}
+	fs, unres := p.FieldSet(row.Pkg, row.Type, row.Fields)
+	for _, f := range fs {
 		fields[f] = true
 	}
-	if p.Field(row.Pkg, row.Type, row.Mutex) == nil {
+	for _, u := range unres {
+		res.Unresolved = append(res.Unresolved, row.Type+"."+u)
+	}
+	if p.FieldExact(row.Pkg, row.Type, row.Mutex) == nil {
 		res.Unresolved = append(res.Unresolved, row.Type+"."+row.Mutex)
 	}
 	held := map[*ssa.Function]string{}
@@ -331,7 +355,9 @@ func (p *Prog) checkGuardOnce(row GuardRow) GuardResult {
 		}
 		fn := p.Func(rel, name)
 		if fn == nil {
-			res.Unresolved = append(res.Unresolved, "held helper "+k)
+			// a listed helper that is gone (renamed, inlined): lock-held helpers are inferred from
+			// their call sites anyway, so nothing is lost
+			res.GoneHelpers = append(res.GoneHelpers, k)
 			continue
 		}
 		held[fn] = v
